@@ -874,15 +874,23 @@ pub(super) fn bl(
         // get operands
         let dst = operand_load(block, &instruction.operands()[0], 64)?;
 
-        // The target is read before the link register is written (`blr x30`).
-        let target = temp0(instruction, 64);
-        block.assign(target.clone(), dst);
+        // A register target is read before the link register is written (`blr x30`). The
+        // target of a direct `bl label` stays a constant, so that callers looking for direct
+        // call targets (`Loader::program_recursive_verbose`) can see it.
+        let target = match dst {
+            il::Expression::Constant(_) => dst,
+            _ => {
+                let target = temp0(instruction, 64);
+                block.assign(target.clone(), dst);
+                il::Expression::Scalar(target)
+            }
+        };
 
         block.assign(
             scalar!("x30"),
             il::expr_const(instruction.address().wrapping_add(4), 64),
         );
-        block.branch(il::Expression::Scalar(target));
+        block.branch(target);
 
         block.index()
     };
